@@ -8,6 +8,7 @@
 // Second part: after every sequence of up to 4 state-changing requests over {open, open with sync, close, set_sync(true), set_sync(false)} (781
 // sequences) each gated request kind {insert_local, delete_prefix, get_exact, get_many, get_sync_peers, export_secret_key, subscribe, get_state: usable iff
 // handles > 0; insert_remote, sync_initial_message, sync_process_message: iff handles > 0 and sync enabled} is probed once against the model.
+// Third part: shutdown while a get_many reply stream is open and unread returns the store within 8 s, and a later request gets an error.
 #[cfg(test)]
 mod verif_rp_c14_actor {
     use super::*;
@@ -168,6 +169,37 @@ mod verif_rp_c14_actor {
         assert_eq!(r.is_ok(), open, "WITNESS get_state usable={} but document open={open} {ctx}", r.is_ok());
         if let Ok(st) = r { assert_eq!((st.handles, st.sync), (h, s), "WITNESS get_state {ctx}"); }
         handle.shutdown().await.unwrap();
+    }
+
+    /// Shutdown while a reply stream (get_many) is still open because its consumer holds the receiver without reading: shutdown must
+    /// come back with the store (holding every acknowledged write), and a request sent afterwards must be answered with an error,
+    /// not left waiting (C10: "never wait forever" when the actor is stopped; C14: shutdown hands back the store).
+    #[tokio::test]
+    async fn shutdown_does_not_wait_for_an_unread_reply_stream() {
+        let mut rng = rand::rng();
+        let ns = NamespaceSecret::new(&mut rng);
+        let author = Author::new(&mut rng);
+        let mut store = Store::memory();
+        store.import_namespace(ns.clone().into()).unwrap();
+        store.import_author(author.clone()).unwrap();
+        let handle = SyncHandle::spawn(store, None, "verif".to_string());
+        let id = ns.id();
+        handle.open(id, OpenOpts::default().sync()).await.unwrap();
+        for i in 0..100u32 {
+            handle.insert_local(id, author.id(), format!("k{i:03}").into_bytes().into(), iroh_blobs::Hash::new(i.to_be_bytes()), 4).await.unwrap();
+        }
+        let (tx, slow_consumer) = mpsc::channel(1);
+        handle.get_many(id, crate::store::Query::all().into(), tx).await.unwrap();
+        let stopper = { let h = handle.clone(); tokio::task::spawn(async move { h.shutdown().await }) };
+        let stopped = tokio::time::timeout(std::time::Duration::from_secs(8), stopper).await;
+        let late = tokio::time::timeout(std::time::Duration::from_secs(8), handle.get_state(id)).await;
+        drop(slow_consumer);
+        assert!(late.is_ok(), "WITNESS a request sent after shutdown (while a get_many reply stream is open and unread) is never answered");
+        assert!(late.unwrap().is_err(), "WITNESS a request sent after shutdown was answered with success");
+        let stopped = stopped.expect("WITNESS shutdown does not return within 8 s while a get_many reply stream is open and unread");
+        let mut store = stopped.unwrap().unwrap();
+        let held = store.get_many(id, crate::store::Query::all()).unwrap().count();
+        assert_eq!(held, 100, "WITNESS store handed back by shutdown holds {held} of 100 acknowledged writes");
     }
 
     #[tokio::test]
